@@ -119,8 +119,21 @@ func randValue(r *Rng, ie *entities.InfoElement, maxVar int) string {
 	case entities.DateTimeMilliseconds:
 		return fmt.Sprintf("dtms %d", pick(64))
 	case entities.Ipv4Address:
-		return "ip " + BytesArg(r.Bytes(4))
+		// net.IP holds an IPv4 address in 4 or in 16 bytes (IPv4-mapped): both are the same value
+		v4 := r.Bytes(4)
+		if r.Intn(4) == 0 {
+			return "ip " + BytesArg(append([]byte{0, 0, 0, 0, 0, 0, 0, 0, 0, 0, 0xff, 0xff}, v4...))
+		}
+		return "ip " + BytesArg(v4)
 	case entities.Ipv6Address:
+		// ... and an ipv6Address element may be given an address of ::ffff:0:0/96, or a 4-byte
+		// net.IP (which To16 widens to that form)
+		switch r.Intn(6) {
+		case 0:
+			return "ip " + BytesArg(append([]byte{0, 0, 0, 0, 0, 0, 0, 0, 0, 0, 0xff, 0xff}, r.Bytes(4)...))
+		case 1:
+			return "ip " + BytesArg(r.Bytes(4))
+		}
 		return "ip " + BytesArg(r.Bytes(16))
 	}
 	panic("type")
